@@ -106,7 +106,12 @@ Verdict run_direct(Case const& c, Ctx& ctx, int which)
 		return p;
 	};
 	bool reentered = false;
+	// packets that carry no drop callback reach the queues without one (the taps do not lend them theirs): a queue has to
+	// drop such a packet silently, which the oracle can only see as "it never left"
+	w.wrap_only_if_present = true;
+	std::vector<int> arrived(2 * inj.size() + 1, 0);
 	term->on = [&](sim::aux::packet const& got) {
+		if (got.seq_nr < arrived.size()) ++arrived[std::size_t(got.seq_nr)];
 		if (got.seq_nr >= n_scripted) return; // replies are not answered
 		Inj const cause = inj[std::size_t(got.seq_nr)];
 		if (cause.react <= 0 || inj.size() >= 2 * n_scripted) return;
@@ -153,6 +158,7 @@ Verdict run_direct(Case const& c, Ctx& ctx, int which)
 	if (st.undroppable_over_cap) ctx.label("undroppable_over_cap");
 	if (st.max_arrivals_one_queue >= 500) ctx.label("long_history_500");
 	if (reentered) ctx.label("arrival_during_forward");
+	if (st.silent_drops) ctx.label("silent_drop_without_callback");
 	term->on = nullptr;
 	if (which == 9) v.nontrivial = st.waited && st.not_waited && st.overhead_nonzero;
 	else v.nontrivial = st.drop_and_accept_droppable && st.undroppable_over_cap;
@@ -172,10 +178,16 @@ Verdict run_direct(Case const& c, Ctx& ctx, int which)
 			if (drops[i].calls && !drops[i].intact)
 				return Verdict::fail("drop_intact", fmt("packet %zu: drop callback received an altered packet", i));
 		}
-		// conservation end to end: every injected packet reached the terminal sink or was dropped once
-		long long nd = 0; for (auto d : dropped_ids) nd += d;
-		if (term->n + nd != (long long)inj.size())
-			return Verdict::fail("conservation", fmt("%zu packets injected, %lld delivered, %lld dropped", inj.size(), term->n, nd));
+		// conservation end to end: every injected packet that has a drop callback reached the terminal sink or was reported
+		// dropped, exactly once; one without a callback reached it at most once (its silent drop is the queue oracle's business)
+		for (std::size_t i = 0; i < inj.size(); ++i)
+		{
+			int const got = i < arrived.size() ? arrived[i] : 0;
+			if (inj[i].hasdrop && got + dropped_ids[i] != 1)
+				return Verdict::fail("conservation", fmt("packet %zu: delivered %d time(s), reported dropped %d time(s)", i, got, dropped_ids[i]));
+			if (!inj[i].hasdrop && (got > 1 || dropped_ids[i] > 0))
+				return Verdict::fail("conservation", fmt("packet %zu (no drop callback): delivered %d time(s), %d drop report(s)", i, got, dropped_ids[i]));
+		}
 	}
 	return v;
 }
